@@ -86,7 +86,7 @@ func (st *PacketServer) StartupPacket(channels Channels, createListenerFunc List
 
 	if secure {
 		log.Infof("Starting AES-encrypted packet server at %s", st.String())
-		key := pbkdf2.Key(pass, salt, 1024, 64, sha256.New)
+		key := pbkdf2.Key(pass, salt, 1024, 32, sha256.New) // AES-256: the cipher takes 16, 24 or 32 octets
 		if b, err := kcp.NewAESBlockCrypt(key); err != nil {
 			return errors.WithStack(err)
 		} else {
